@@ -167,6 +167,22 @@ namespace plan
       return b;
     }
 
+    void mention(const Lin &l)
+    {
+      for (auto &t : l.t)
+        m.mentioned.insert(t.second[0]);
+    }
+    void mention(const BP &b)
+    {
+      mention(b->l);
+      mention(b->r);
+      if (!b->p.empty())
+        m.mentioned.insert(b->p[0]);
+      if (!b->p2.empty())
+        m.mentioned.insert(b->p2[0]);
+      for (auto &c : b->sub)
+        mention(c);
+    }
     void decl(const std::string &text)
     {
       Stmt s;
@@ -187,6 +203,7 @@ namespace plan
         if (i < b->l.t.size())
           std::swap(b->l.t[0], b->l.t[i]);
       }
+      mention(b);
       Stmt s;
       s.k = Stmt::ASSERT;
       s.b = b;
@@ -781,6 +798,10 @@ namespace plan
       }
       pos++;
       it->args = parse_args(op, pos, p, top);
+      for (auto &a : it->args)
+        mention(a.val);
+      for (auto &sp : it->scope)
+        m.mentioned.insert(sp);
       Stmt s;
       s.k = Stmt::FORMULA;
       s.item = it;
